@@ -1,14 +1,199 @@
-(* C18 — Verbose payloads: encode/decode agreement and canonical text.  Statements only. *)
+(* C18 — Verbose payloads: encode/decode agreement and canonical text.
+   Statements only; proofs are in Dlt/ArgsProofs.v and Dlt/TextProofs.v.
+
+   Model (Dlt/Args.v, Dlt/Text.v):
+     [msg_args verbose be payload]      the items of `for arg in &msg` (DltMessageArgIterator up to the first None)
+     [arg_next payload it]              one call of Iterator::next with the iterator state afterwards
+     [payload_from_args args]           utils::payload_from_args
+     [dlt_args vals]                    dlt_args! / serde_verb_payload::Serializer
+     [payload_text .. be payload]       DltMessage::payload_as_text of a verbose message
+   [res] = Ok | Panic | OutOfFuel: every slice, index and usize addition of the Rust code is checked in the
+   model, so "= Ok .." includes "does not panic / never reads outside the payload".
+   [fits p]: the payload is at most isize::MAX bytes (guaranteed for every Vec<u8>).
+   [value]: the typed values of the statement; [wf_value] their ranges.  Float Display, UTF-8-lossy and
+   Windows-1252 decoding are the Section variables of Dlt/Text.v (external code, not modelled): the
+   theorems hold for every such function. *)
 From Coq Require Import List NArith ZArith Bool.
-From AdltV Require Import Base.Res Base.MachInt Dlt.Args Dlt.Text.
+From AdltV Require Import Base.Res Base.MachInt Dlt.Args Dlt.ArgsProofs Dlt.Text Dlt.TextProofs.
 Import ListNotations.
 Open Scope N_scope.
 
+(* decode (encode args) = args: same number of arguments, same type words, same raw bytes, both byte orders *)
+Theorem C18_decode_encode (be : bool) (vals : list value) :
+  Forall wf_value vals -> fits (payload_from_args (map (value_arg be) vals)) ->
+  msg_args true be (payload_from_args (map (value_arg be) vals)) = Ok (map (value_arg be) vals).
+Proof. intros H F. rewrite payload_from_values in *. apply decode_encode; [apply wf_values_args, H|exact F]. Qed.
+
+(* the same for every DltArg the iterator accepts (any type word: TYLE 128 bit, bool with TYLE 0, extra
+   ARAY/TRAI/STRU/SCOD bits ...), [wf_arg] being the decidable description of "accepted" *)
+Theorem C18_decode_encode_any_type_word (be : bool) (args : list arg) :
+  Forall (fun a => wf_arg be a = true) args -> fits (payload_from_args args) ->
+  msg_args true be (payload_from_args args) = Ok args.
+Proof.
+  intros H F. rewrite (payload_from_args_uniform be) in *.
+  - apply decode_encode; assumption.
+  - eapply Forall_impl; [|exact H]. intros a Ha. apply (wf_arg_inv _ _ Ha).
+  - eapply Forall_impl; [|exact H]. intros a Ha. apply (wf_arg_inv _ _ Ha).
+Qed.
+
+(* the serde serializer (dlt_args!) accepts every supported value, counts the arguments and writes exactly the
+   layout of payload_from_args in host (little-endian) order; decoding gives the values back *)
+Theorem C18_serde_decode_encode (vals : list sval) :
+  Forall wf_sval vals -> fits (payload_from_args (map sval_arg_d vals)) ->
+  dlt_args vals = SOk (N.of_nat (length vals), payload_from_args (map sval_arg_d vals)) /\
+  msg_args true false (payload_from_args (map sval_arg_d vals)) = Ok (map sval_arg_d vals).
+Proof.
+  intros H F. destruct (dlt_args_layout vals H) as [E W].
+  assert (U : payload_from_args (map sval_arg_d vals) = enc_args false (map sval_arg_d vals)).
+  { apply payload_from_args_uniform. eapply Forall_impl; [|exact W]. intros a Ha. apply (wf_arg_inv _ _ Ha). }
+  rewrite U in *. split; [exact E|]. apply decode_encode; assumption.
+Qed.
+
+(* truncation: for every cut k the decoded list is exactly the arguments whose encoding is complete,
+   hence a prefix of the original arguments *)
+Theorem C18_truncation_prefix (be : bool) (vals : list value) (k : nat) :
+  Forall wf_value vals -> fits (payload_from_args (map (value_arg be) vals)) ->
+  msg_args true be (firstn k (payload_from_args (map (value_arg be) vals)))
+  = Ok (firstn (n_complete be k (map (value_arg be) vals)) (map (value_arg be) vals)).
+Proof. intros H F. rewrite payload_from_values in *. apply truncation_prefix; [apply wf_values_args, H|exact F]. Qed.
+
+Theorem C18_truncation_is_prefix (be : bool) (vals : list value) (k : nat) :
+  Forall wf_value vals -> fits (payload_from_args (map (value_arg be) vals)) ->
+  exists decoded rest, msg_args true be (firstn k (payload_from_args (map (value_arg be) vals))) = Ok decoded /\
+                       map (value_arg be) vals = decoded ++ rest.
+Proof.
+  intros H F. eexists _, _. split; [apply C18_truncation_prefix; assumption|].
+  symmetry. apply firstn_skipn.
+Qed.
+
+(* corruption / malformed tail: whatever bytes follow the intact encodings of the first arguments, those
+   arguments are decoded unchanged (and nothing panics) *)
+Theorem C18_corruption_keeps_prefix (be : bool) (vals : list value) (tail : bytes) :
+  Forall wf_value vals ->
+  fits (payload_from_args (map (value_arg be) vals) ++ tail) ->
+  wf_bytes (payload_from_args (map (value_arg be) vals) ++ tail) ->
+  exists more, msg_args true be (payload_from_args (map (value_arg be) vals) ++ tail) = Ok (map (value_arg be) vals ++ more).
+Proof. intros H F W. rewrite payload_from_values in *. apply decode_encode_app; [apply wf_values_args, H|exact F|exact W]. Qed.
+
+(* ARBITRARY payload bytes, either mode and byte order (noar is not an input of the iterator): the loop
+   terminates without a panic and every yielded raw slice lies inside the payload *)
+Theorem C18_decode_in_bounds (verbose be : bool) (p : bytes) :
+  fits p -> wf_bytes p ->
+  exists args, msg_args verbose be p = Ok args /\
+    Forall (fun a => sub_slice p (a_raw a) /\ a_be a = be) args.
+Proof.
+  intros F W. destruct (msg_args_st_total verbose be p F W) as [l [it' [E [A [B _]]]]].
+  exists l. unfold msg_args. rewrite E. split; [reflexivity|].
+  apply Forall_forall. intros a Ha. split.
+  - exact (proj1 (Forall_forall _ _) A a Ha).
+  - exact (proj1 (Forall_forall _ _) B a Ha).
+Qed.
+
+(* every single call of next() — also after a None (the iterator is not fused and "advances in any case") —
+   returns without a panic, a yielded slice is inside the payload, and the index stays within 65541 of the end *)
+Theorem C18_next_never_panics (p : bytes) (it : iter) :
+  fits p -> wf_bytes p -> it_index it <= plen p + slack ->
+  exists o it', arg_next p it = Ok (o, it') /\ it_index it' <= plen p + slack /\
+    match o with
+    | Some a => it_index it < it_index it' <= plen p /\ sub_slice p (a_raw a)
+    | None => True
+    end.
+Proof.
+  intros F W HI. destruct (arg_next_step p it F W HI) as [o [it' [E [[_ [_ [S1 S2]]] _]]]].
+  exists o, it'. split; [exact E|]. split; [exact S1|].
+  destruct o as [a|]; [|exact I]. destruct S2 as [A [B [C _]]]. auto.
+Qed.
+
+Section TextStatements.
+  (* external code: Display of f32/f64 from the bit pattern, String::from_utf8_lossy, WINDOWS_1252 decoding *)
+  Variable fdisp32 fdisp64 : N -> bytes.
+  Variable lossy w1252 : bytes -> bytes.
+
+  (* the text of an encoded argument list is the space-separated canonical form: true/false, decimal
+     (two's complement for signed), lower-case hex bytes separated by spaces for raw data, strings with one
+     trailing NUL removed and CR/LF/TAB replaced by a space, floats by their Display *)
+  Theorem C18_text_canonical (be : bool) (vals : list value) :
+    Forall wf_value vals -> fits (payload_from_args (map (value_arg be) vals)) ->
+    payload_text fdisp32 fdisp64 lossy w1252 be (payload_from_args (map (value_arg be) vals))
+    = Ok (canon_text fdisp32 fdisp64 lossy w1252 vals).
+  Proof. apply text_canonical. Qed.
+
+  Theorem C18_text_canonical_truncated (be : bool) (vals : list value) (k : nat) :
+    Forall wf_value vals -> fits (payload_from_args (map (value_arg be) vals)) ->
+    payload_text fdisp32 fdisp64 lossy w1252 be (firstn k (payload_from_args (map (value_arg be) vals)))
+    = Ok (canon_text fdisp32 fdisp64 lossy w1252 (firstn (n_complete be k (map (value_arg be) vals)) vals)).
+  Proof. apply text_canonical_truncated. Qed.
+
+  (* payload_as_text of a verbose message never panics, whatever the payload *)
+  Theorem C18_text_never_panics (be : bool) (p : bytes) :
+    fits p -> wf_bytes p -> exists t, payload_text fdisp32 fdisp64 lossy w1252 be p = Ok t.
+  Proof. apply payload_text_total. Qed.
+End TextStatements.
+
+(* the decimal printer used by the canonical form is the usual one: only digits, the right value, no leading zero *)
+Theorem C18_dec_canonical (n : N) :
+  Forall is_digit (dec n) /\ dval (dec n) 0 = n /\
+  (n = 0 -> dec n = [48]) /\ (0 < n -> exists d r, dec n = d :: r /\ d <> 48).
+Proof. exact (dec_canonical n). Qed.
+
+(* signed values are printed from their two's complement encoding *)
+Theorem C18_signed_text (k : nat) (z : Z) : (0 < k)%nat ->
+  (- 2 ^ (Z.of_nat (8 * k) - 1) <= z < 2 ^ (Z.of_nat (8 * k) - 1))%Z ->
+  sdec (8 * N.of_nat k) (twos k z) = zdec z.
+Proof. exact (sdec_twos k z). Qed.
+
+(* the defect repaired by /repo commit "fix: payload_from_args always writes the length ...": the previous
+   encoder omitted the length field of an EMPTY string/raw argument; with it the round trip fails *)
+Definition enc_arg_before_fix (be : bool) (a : arg) : bytes :=
+  word_bytes be 4 (a_ti a)
+  ++ (if is_lenpref (a_ti a) && (0 <? trunc 16 (plen (a_raw a))) then word_bytes be 2 (trunc 16 (plen (a_raw a))) else [])
+  ++ a_raw a.
+Example C18_encoder_before_fix_refuted :
+  exists vals, Forall wf_value vals /\
+    msg_args true false (flat_map (enc_arg_before_fix false) (map (value_arg false) vals)) <> Ok (map (value_arg false) vals).
+Proof.
+  exists [VRaw []; VUInt 1 7]. split.
+  - apply Forall_cons; [vm_compute; discriminate|]. apply Forall_cons; [split; reflexivity|]. apply Forall_nil.
+  - vm_compute. discriminate.
+Qed.
+
+(* non-vacuity: a mixed list in both byte orders satisfies the hypotheses; its decoding and text *)
 Example C18_nonvacuous :
-  let vals := [VBool true; VSInt 2 (-2)%Z; VUInt 3 70000; VStr true [104; 105; 10; 0]; VRaw [0; 255]] in
+  let vals := [VBool true; VSInt 2 (-2)%Z; VUInt 3 70000; VStr true [104; 105; 10; 0]; VRaw [0; 255]; VSInt 5 (- 2 ^ 127)%Z] in
+  Forall wf_value vals /\
+  fits (payload_from_args (map (value_arg true) vals)) /\
   msg_args true true (payload_from_args (map (value_arg true) vals)) = Ok (map (value_arg true) vals) /\
   payload_text (fun _ => []) (fun _ => []) (fun s => s) (fun s => s) true (payload_from_args (map (value_arg true) vals))
-    = Ok [116; 114; 117; 101; 32; 45; 50; 32; 55; 48; 48; 48; 48; 32; 104; 105; 32; 32; 48; 48; 32; 102; 102].
-Proof. split; vm_compute; reflexivity. Qed.
+    = Ok ([116; 114; 117; 101; 32; 45; 50; 32; 55; 48; 48; 48; 48; 32; 104; 105; 32; 32; 48; 48; 32; 102; 102; 32; 45]
+          ++ dec (2 ^ 127)) /\
+  msg_args true false (firstn 12 (payload_from_args (map (value_arg false) vals))) = Ok (map (value_arg false) (firstn 2 vals)).
+Proof.
+  cbv zeta. split; [|split; [|split; [|split]]].
+  - repeat (apply Forall_cons || apply Forall_nil); cbn [wf_value].
+    + exact I.
+    + split; [reflexivity|]. vm_compute. split; [discriminate|reflexivity].
+    + split; reflexivity.
+    + vm_compute. discriminate.
+    + vm_compute. discriminate.
+    + split; [reflexivity|]. vm_compute. split; [discriminate|reflexivity].
+  - vm_compute. discriminate.
+  - vm_compute. reflexivity.
+  - vm_compute. reflexivity.
+  - vm_compute. reflexivity.
+Qed.
 
+Print Assumptions C18_decode_encode.
+Print Assumptions C18_decode_encode_any_type_word.
+Print Assumptions C18_serde_decode_encode.
+Print Assumptions C18_truncation_prefix.
+Print Assumptions C18_truncation_is_prefix.
+Print Assumptions C18_corruption_keeps_prefix.
+Print Assumptions C18_decode_in_bounds.
+Print Assumptions C18_next_never_panics.
+Print Assumptions C18_text_canonical.
+Print Assumptions C18_text_canonical_truncated.
+Print Assumptions C18_text_never_panics.
+Print Assumptions C18_dec_canonical.
+Print Assumptions C18_signed_text.
+Print Assumptions C18_encoder_before_fix_refuted.
 Print Assumptions C18_nonvacuous.
